@@ -2,7 +2,7 @@ SPECIFICATION Spec
 CONSTANTS
   Deviations <- RealDevs
   RuleSets <- VacuitySets
-  MaxDepth = 1
+  MaxDepth = 2
   Wide = FALSE
 INVARIANT NeverNested
 CHECK_DEADLOCK FALSE
